@@ -93,8 +93,45 @@ def _guard_for(node, dist_decl):
                     b = _lower(lf, dist_decl, False)
                     if b:
                         bounds.append(b)
+        elif a.k == "CompoundStmt":
+            # an earlier `if (c) { ...; return/continue/break; }` of the same block: !c holds from there on
+            for sib in a.c:
+                if sib is child or _contains(sib, child):
+                    break
+                if sib is None or sib.k != "IfStmt":
+                    continue
+                kids = [x for x in sib.c if x is not None]
+                if len(kids) != 2 or not _always_leaves(kids[1]):
+                    continue
+                leaves = []
+
+                def split2(c):
+                    c = c.strip()
+                    if c.k == "BinaryOperator" and c.op == "||":
+                        split2(c.c[0])
+                        split2(c.c[1])
+                    else:
+                        leaves.append(c)
+                split2(kids[0])
+                for lf in leaves:
+                    b = _lower(lf, dist_decl, False)
+                    if b:
+                        bounds.append(b)
         child = a
     return bounds
+
+
+def _always_leaves(st):
+    """The statement never falls through: it is, or ends in, a return / continue / break / goto."""
+    if st.k in ("ReturnStmt", "ContinueStmt", "BreakStmt", "GotoStmt"):
+        return True
+    if st.k == "CompoundStmt":
+        kids = [x for x in st.c if x is not None]
+        return bool(kids) and _always_leaves(kids[-1])
+    if st.k == "IfStmt":
+        kids = [x for x in st.c if x is not None]
+        return len(kids) == 3 and _always_leaves(kids[1]) and _always_leaves(kids[2])
+    return False
 
 
 def _contains(root, n):
